@@ -402,6 +402,16 @@ func (f *frame) returnAsserts(st *State, r *ssa.Return) {
 		return
 	}
 	f.retOrd++
+	maxOrd := 0
+	for _, a := range f.spec.AfterLoop {
+		if a.Ordinal < -1 && -1-a.Ordinal > maxOrd {
+			maxOrd = -1 - a.Ordinal
+		}
+	}
+	if maxOrd > 0 && f.retOrd > maxOrd {
+		// the contract describes every return path; a return it does not know is a path it cannot vouch for
+		f.c.oblige("assert", "unexpected-return", f.c.tags, st.reach, TFalse, f.pos(r.Pos()), fmt.Sprintf("the contract describes %d return paths; this is return path %d", maxOrd, f.retOrd))
+	}
 	for _, a := range f.spec.AfterLoop {
 		if a.Ordinal >= 0 || (a.Ordinal != -1 && a.Ordinal != -1-f.retOrd) {
 			continue
